@@ -4,6 +4,14 @@
 import glob, json, os, re, subprocess, sys, time
 out = []
 only = set(sys.argv[1:])
+import shutil, atexit
+# the checks rewrite evidence/<id>.json: keep the evidence of the unchanged tree
+shutil.rmtree('/verif/work/evidence_backup', ignore_errors=True)
+shutil.copytree('/verif/evidence', '/verif/work/evidence_backup')
+def _restore():
+    shutil.rmtree('/verif/evidence', ignore_errors=True)
+    shutil.copytree('/verif/work/evidence_backup', '/verif/evidence')
+atexit.register(_restore)
 for d in sorted(glob.glob('/verif/seeded/*/')):
     name = os.path.basename(d.rstrip('/'))
     if only and name not in only:
